@@ -39,6 +39,7 @@ def run(ck):
     # level would be accepted relative to a stale path)
     import c02
     c02.rule_R(ck, lib, pfx="C01")
+    rule_S(ck)
     rule_T(ck)
 
 
@@ -326,3 +327,150 @@ def rule_W(ck, lib):
             ck.judge(okn and seen_none, "C01-W", "%s:child@%s:none-is-undefined-header" % (kind, n_child),
                      "unknown mnemonic leaves the parser with UndefinedHeader", "unknown mnemonic does not leave the header parser with Err(UndefinedHeader)", site)
     ck.floor("C01-W", "Node::child call sites in the header parsers", n_child, 3)
+
+
+# ------------------------------------------------------------------ C01-S: the macro's own spelling rule
+TRYFROM = "<microscpi_macros::command::Command as core::convert::TryFrom<&str>>::try_from"
+PATHS = "microscpi_macros::command::Command::paths"
+
+
+def rule_S(ck):
+    """Structural rules on the macro crate, valid for every declaration (ASCII spellings): a declaration is split at ':',
+    a trailing '?' makes it a query, `[x]` marks an optional part, short = the part's characters that are not lower
+    case, long = the part upper-cased; paths() emits for every part the long form, the short form when it differs, and
+    nothing when the part is optional, on top of every path built so far."""
+    import bytecls
+    m = ctx.macros(ck)
+    if m is None:
+        return
+    ex, ps = ctx.summarize(m, TRYFROM, ck)
+    if ck.anchor("C01-S", TRYFROM, ex):
+        b = m.body(TRYFROM)
+        val = ("param", b["params"][0].get("name"))
+        n_push = 0
+        n_ret = 0
+        for i, x in enumerate(ex):
+            q = None
+            sfx = None
+            for c in x.conds:
+                if c[0] == "is" and c[2] == SOME and c[1][0] == "call" and c[1][1].endswith("::strip_suffix") and c[1][2] == (val, ("lit", "char", 63)):
+                    q = c[3]
+                    sfx = c[1]
+            src = ("payload", sfx, SOME, 0) if q else val
+            if x.kind == "return":
+                n_ret += 1
+                v = x.value
+                ok = q is not None and v[0] == "ctor" and v[1] == OK and v[2][0][0] == "struct" and dict(v[2][0][2]).get("query") == ("lit", "bool", q)
+                ck.judge(ok, "C01-S", "try_from:query-flag[%s]" % q, "query flag is set iff the declaration ends in '?'", "query flag on the return path is %s under strip_suffix('?')=%s" % (show_term(v), q))
+                continue
+            if x.kind != "backedge":
+                continue
+            pushes = [e for e in x.effects if e[0] == "call" and e[1].endswith("::push") and e[2][1][0] == "struct"]
+            it = None
+            for e in x.effects:
+                if e[0] == "call" and e[1].endswith("::is_empty") and e[2][0][0] == "iter_item":
+                    it = e[2][0]
+            empty = None
+            for c in x.conds:
+                if c[0] == "true" and c[1][0] == "call" and c[1][1].endswith("::is_empty") and it is not None and c[1][2] == (it,):
+                    empty = c[2]
+            key = "try_from:part#%d" % i
+            if it is None or empty is None:
+                ck.bad("C01-S", key, "loop body does not test the part for emptiness", data=pathsum.show_exit(x)[:600])
+                continue
+            split = it[1]
+            ok_split = split[0] == "call" and split[1].endswith("::map") and split[2][1] == ("fn", "core::str::trim") and split[2][0][0] == "call" \
+                and split[2][0][1].endswith("::split") and split[2][0][2] == (src, ("lit", "char", 58))
+            ck.judge(ok_split, "C01-S", key + ":split", "parts = <declaration without '?'>.split(':').map(trim)", "parts come from %s" % show_term(split))
+            if empty:
+                ck.judge(not pushes, "C01-S", key + ":empty-skipped", "empty parts are skipped", "an empty part is pushed")
+                continue
+            n_push += 1
+            if not ck.judge(len(pushes) == 1, "C01-S", key + ":one-part", "one CommandPart per part", "%d parts pushed" % len(pushes)):
+                continue
+            f = dict(pushes[0][2][1][2])
+            br = {}
+            for c in x.conds:
+                if c[0] == "true" and c[1][0] == "call" and c[1][1].endswith(("::starts_with", "::ends_with")) and c[1][2][0] == it:
+                    br[(c[1][1].split("::")[-1], c[1][2][1])] = c[2]
+            bracketed = br.get(("starts_with", ("lit", "char", 91))) is True and br.get(("ends_with", ("lit", "char", 93))) is True
+            plain = br.get(("starts_with", ("lit", "char", 91))) is False or br.get(("ends_with", ("lit", "char", 93))) is False
+            if bracketed:
+                ln = None
+                inner_ok = lambda t: t[0] == "index" and t[1] == it and t[2][0] == "struct" and t[2][1].endswith("::Range") and dict(t[2][2])["start"] == ("lit", "int", 1) \
+                    and pathsum.strip_sites(dict(t[2][2])["end"]) == ("bin", "Sub", ("call", "core::str::len", (pathsum.strip_sites(it),)), ("lit", "int", 1))
+                want_opt = True
+            elif plain:
+                inner_ok = lambda t: t == it
+                want_opt = False
+            else:
+                ck.bad("C01-S", key + ":brackets", "optional marking does not follow starts_with('[') && ends_with(']'): %s" % br)
+                continue
+            ck.judge(f.get("optional") == ("lit", "bool", want_opt), "C01-S", key + ":optional[%s]" % want_opt, "optional = %s" % want_opt, "optional is %s for a %s part" % (show_term(f.get("optional")), "bracketed" if want_opt else "plain"))
+            lg = f.get("long")
+            ok_long = lg is not None and lg[0] == "call" and lg[1].endswith("::to_uppercase") and inner_ok(lg[2][0])
+            ck.judge(ok_long, "C01-S", key + ":long", "long = part.to_uppercase()", "long form is %s" % (show_term(lg) if lg else None))
+            sh = f.get("short")
+            ok_short = False
+            cls = None
+            if sh is not None and sh[0] == "call" and sh[1].endswith("::collect") and sh[2][0][0] == "call" and sh[2][0][1].endswith("::filter"):
+                flt = sh[2][0]
+                chars, cl = flt[2]
+                if chars[0] == "call" and chars[1].endswith("::chars") and inner_ok(chars[2][0]) and cl[0] == "closure":
+                    cls = bytecls.denote_closure(ps.closures.get(cl[1]), None, None, domain=128)
+                    ok_short = cls == frozenset(range(128)) - frozenset(range(97, 123))
+            ck.judge(ok_short, "C01-S", key + ":short", "short = the part's characters that are not lower case (ASCII: everything but a-z)",
+                     "short form keeps %s of the ASCII characters; it must keep exactly those that are not a-z (digits, '_' and '*' included)" % (bytecls.show_set(cls) if cls is not None else show_term(sh) if sh else None))
+        ck.floor("C01-S", "part-pushing paths of Command::try_from", n_push, 4)
+        ck.floor("C01-S", "return paths of Command::try_from", n_ret, 2)
+    ex, ps = ctx.summarize(m, PATHS, ck)
+    if ck.anchor("C01-S", PATHS, ex):
+        n = 0
+        for i, x in enumerate(ex):
+            if x.kind != "backedge":
+                continue
+            heads = [e[1] for e in x.effects if e[0] == "loop_head"]
+            if len(heads) < 2 or x.extra != heads[-1]:
+                continue
+            n += 1
+            inner = heads[-1]
+            after = x.after_head(inner)
+            part = None
+            ne = opt = None
+            for c in x.conds:
+                if c[0] == "true" and c[1][0] == "bin" and c[1][1] == "Ne" and c[1][2][0] == "field" and c[1][2][2] == "short" and c[1][3][0] == "field" and c[1][3][2] == "long" and c[1][2][1] == c[1][3][1]:
+                    ne = c[2]
+                    part = c[1][2][1]
+                if c[0] == "true" and c[1][0] == "field" and c[1][2] == "optional":
+                    opt = c[2]
+            key = "paths:step[short!=long=%s,optional=%s]" % (ne, opt)
+            if part is None or ne is None or opt is None:
+                ck.bad("C01-S", key + "#%d" % i, "a step of paths() does not test short != long and optional", data=pathsum.show_exit(x)[:800])
+                continue
+            # pushes into the new path list, each being a clone of the current path extended (or not) by a form
+            ext = {}
+            outs = []
+            newp = None
+            for e in after:
+                if e[0] == "call" and e[1].endswith("::push"):
+                    tgt, v = e[2]
+                    if tgt[0] == "loopvar":
+                        newp = tgt
+                        outs.append(v)
+                    else:
+                        ext.setdefault(tgt, []).append(v)
+            got = []
+            for v in outs:
+                isclone = v[0] == "call" and v[1].endswith("::clone") and v[2][0][0] == "iter_item"
+                adds = ext.get(v, [])
+                forms = []
+                for a in adds:
+                    if a[0] == "call" and a[1].endswith("::clone") and a[2][0][0] == "field" and a[2][0][1] == part:
+                        forms.append(a[2][0][2])
+                    else:
+                        forms.append("?")
+                got.append((isclone, tuple(forms)))
+            want = [(True, ("long",))] + ([(True, ("short",))] if ne else []) + ([(True, ())] if opt else [])
+            ck.judge(got == want, "C01-S", key, "every path so far is extended by %s" % [w[1] for w in want],
+                     "a step of paths() extends the paths by %s, expected %s" % ([g[1] if g[0] else "not-a-clone" for g in got], [w[1] for w in want]), data=pathsum.show_exit(x)[:800])
+        ck.floor("C01-S", "steps of Command::paths", n, 4)
